@@ -466,6 +466,14 @@ class Evaluator(object):
                         args = [self.ev(a, loc) for a in c.args]
                         getattr(recv, c.func.attr)(*args)
                         return
+                if isinstance(recv, Obj) and (isinstance(recv.__dict__['_attrs'].get(c.func.attr), Native) or c.func.attr in recv.__dict__.get('_methods', {})):
+                    self.ev(c, loc)
+                    return
+            if isinstance(c, ast.Call) and isinstance(c.func, ast.Name):
+                tgt = (loc or {}).get(c.func.id, self.env.get(c.func.id))
+                if isinstance(tgt, (Native, ast.FunctionDef)):
+                    self.ev(c, loc)
+                    return
             raise NotConst('expression statement')
         elif isinstance(st, (ast.Pass, ast.Import, ast.ImportFrom)):
             return
